@@ -422,18 +422,22 @@ def search_eval(R, lib, inst, tag, inv):
             raise AnalysisError('anchor vanished: %s::%s [%s]' % (REG, name, tag))
         return fs[0]
 
-    def call(f, args, recv=None):
+    def call(f, args, recv=None, budget=20000):
         """-> value, or ('fault', text)"""
+        if f.name in dead:          # one look-up that never ends is enough: the rest of its calls are not interpreted
+            return ('fault', 'does not terminate')
         try:
-            ev = AEval(module=mod, intrinsics=intr, typed=True, max_steps=20000)
+            ev = AEval(module=mod, intrinsics=intr, typed=True, max_steps=budget)
             ns = CxxModule._Fn(f)
             return ev.call_function(f.name, list(args), recv=recv, chosen=ns)
         except IndexError:
             return ('fault', 'reads outside the registry')
         except AnalysisError as ex:
             if 'step budget' in str(ex) or 'does not terminate' in str(ex):
+                dead.add(f.name)
                 return ('fault', 'does not terminate')
             raise
+    dead = set()
     lin, bsr, lid, srt = fn('linearSearchByName'), fn('binarySearchByName'), fn('linearSearchById'), fn('isSorted', 2)
     fin, fid = fn('findIndexForName'), fn('findIndexForId')
     thorough = R.cfg.tier == 'thorough'
@@ -493,6 +497,41 @@ def search_eval(R, lib, inst, tag, inv):
                     if got != want:
                         note('R2', c, f_.loc, '%s on a registry of %d entries, id %d: %s, expected %s'
                              % (f_.name.split('::')[-1], n, zid, got[1] if isinstance(got, tuple) else ('index %d' % got if got != inv else 'not found'),
+                                ('index %d' % want) if want != inv else 'not found'))
+    # the bisection on sorted registries whose sizes sit at the edges of the index types (entries made when they are read):
+    # a midpoint or a bound that wraps in 8 or 16 bits shows here, which the small registries above cannot show
+    class Virtual(list):
+        def __init__(self, n):
+            super().__init__()
+            self.n, self.made = n, {}
+
+        def __len__(self):
+            return self.n
+
+        def __bool__(self):
+            return self.n > 0
+
+        def __getitem__(self, i):
+            if not isinstance(i, int) or i < 0 or i >= self.n:
+                raise IndexError(i)
+            if i not in self.made:
+                self.made[i] = AObj({'name': 2 * i, 'zoneId': 1000 + 2 * i}, oid='z%d' % (2 * i))
+            return self.made[i]
+    top = inv - 1 if inv > 0 else 0xFFFE
+    for n in sorted({255, 256, 257, 32767, 32768, 32769, top - 1, top} if thorough else {255, 256, 257, 32768, top}):
+        if n <= maxn or n >= inv:
+            continue
+        reg = Virtual(n)
+        registrar = AObj({'mRegistrySize': n, 'mZoneRegistry': reg, 'mIsSorted': 1}, oid='registrar', cls=REG,
+                         ftypes={'mRegistrySize': (16, False), 'mIsSorted': (8, False)})
+        for i in sorted({0, 1, n // 2 - 1, n // 2, n // 2 + 1, n - 2, n - 1}):
+            for q, want in ((2 * i, i), (2 * i + 1, inv), (2 * i - 1, inv)):
+                for f_, c, args, recv in ((bsr, '%s:direction' % bsr.name, [reg, n, q], None), (fin, '%s:return' % fin.name, [q], registrar)):
+                    counts['R2-dir' if f_ is bsr else 'R2'] += 1
+                    got = call(f_, args, recv, budget=20000 if f_ is bsr else 20000 + 40 * n)    # the dispatcher may legitimately walk the registry
+                    if got != want:
+                        note('R2-dir' if f_ is bsr else 'R2', c, f_.loc, '%s on a sorted registry of %d entries, query rank %d: %s, expected %s'
+                             % (f_.name.split('::')[-1], n, q, got[1] if isinstance(got, tuple) else ('index %d' % got if got != inv else 'not found'),
                                 ('index %d' % want) if want != inv else 'not found'))
     faulty = set()
     for (rule_, c_), _v in first.items():
@@ -786,6 +825,10 @@ def manager_rules(R, lib):
                     return f, ('fault', 'reads outside the registry')
                 except Raised as x_:
                     return f, ('fault', 'raises %s' % x_.what)
+                except AnalysisError as ex:
+                    if 'step budget' in str(ex):
+                        return f, ('fault', 'a call that does not terminate')
+                    raise
 
             def describe(tz):
                 if isinstance(tz, tuple):
